@@ -324,7 +324,7 @@ JudgeOut judge(const json &plan)
 
 	death_and_stdout(base, "", out.viol);
 	// deaths are reported with their class; stdout belongs to C02 only
-	out.viol.erase(std::remove_if(out.viol.begin(), out.viol.end(), [](const Violation &v) { return v.cls.compare(0, 7, "stdout:") == 0; }),
+	out.viol.erase(std::remove_if(out.viol.begin(), out.viol.end(), [](const Violation &v) { return v.cls.compare(0, 7, "stdout:") == 0 || v.cls.compare(0, 6, "stdin:") == 0; }),
 		       out.viol.end());
 
 	// ---- O-scrub
